@@ -273,7 +273,12 @@ class AbstractDateTime(AnyAtomicType):
             raise TypeError("wrong type %r for operand %r" % (type(other), other))
 
         if self._year != year:
-            return op(self._year, year)
+            if abs(self._year - year) > 1 or not isinstance(other, AbstractDateTime) or \
+                    self._dt.tzinfo is dt.tzinfo:
+                return op(self._year, year)
+            # Adjacent years and different timezones: compare the positions in the timeline
+            # (a value without timezone is considered as UTC, as for values of the same year)
+            return op(self.todelta(), other.todelta())
         elif self._dt.tzinfo is dt.tzinfo:
             return op(self._dt, dt)
         elif self.tzinfo is None:
@@ -1253,9 +1258,8 @@ class DayTimeDuration(Duration):
 
     @classmethod
     def fromtimedelta(cls, td: datetime.timedelta) -> 'DayTimeDuration':
-        return cls(seconds=Decimal(
-            '{}.{:06}'.format(td.days * 86400 + td.seconds, td.microseconds)
-        ))
+        # A negative timedelta has negative days and non-negative seconds and microseconds
+        return cls(seconds=Decimal(td.days * 86400 + td.seconds) + Decimal(td.microseconds) / 1000000)
 
     def __init__(self, seconds: Union[Decimal, int] = 0) -> None:
         """
